@@ -7,7 +7,7 @@ for i in sys.argv[1:]:
     open(f'/tmp/seed/{i}.task.md', 'w').write(f"""# Task: seed a realistic property-breaking change into pdfcpu
 
 You work ONLY inside the git worktree `/tmp/seed/{i}` (a checkout of the pdfcpu Go library + CLI).
-Never read or write `/repo` or `/verif`. Work offline: every shell call needs
+Never read or write `/repo` or `/verif`. Never use `git stash` (the stash is shared with other worktrees of the same repository): to test without your change use `git diff > /tmp/seed/{i}.out/patch.diff && git apply -R /tmp/seed/{i}.out/patch.diff`, and `git apply` it again afterwards. Work offline: every shell call needs
 `export GOFLAGS=-mod=mod GOPROXY=off` (do NOT set GOTOOLCHAIN or GOSUMDB; the go.mod selects go 1.25.0 from the module cache).
 
 ## The property (id {i}): {p['title']}
